@@ -331,6 +331,7 @@ def authc_templates():
         (61, [("c", 1), ("s", b"x")]),
         (63, [("s", b"tok")]),
         (80, [("s", b"hostkeys-00@openssh.com"), ("B", 0), ("s", _blob("ed25519"))]),
+        (1, [("u", 2), ("s", b"Too many authentication failures"), ("s", b"")]),
     ]
 
 
@@ -345,8 +346,28 @@ def info_request_fields(nprompts):
 KBD_FAILURE_LISTS = [b"keyboard-interactive", b"keyboard-interactive,publickey", b"publickey,keyboard-interactive", b"password,keyboard-interactive", b"publickey"]
 KBD_FINALS = ["success", "failure", "partial", "silence", "disconnect", "another-request"]
 
+# SSH_MSG_DISCONNECT (RFC 4253 11.1: reason code, description, language tag) as a peer sends it to take leave - at ANY stage, it is the
+# one message every stage accepts.  A session script may end with one ("bye"): built from this grammar, mutated like every other
+# message (text-preferring), placed after 0..n of the script's messages.  The two literals with an undecodable description are the ones
+# the pre / authk scripts have always used.
+BYE_TEMPLATES = [
+    (1, [("u", 11), ("s", b"bye"), ("s", b"en")]),
+    (1, [("u", 2), ("s", b"Too many authentication failures"), ("s", b"")]),
+    (1, [("u", 11), ("s", b"go away"), ("s", b"")]),
+    (1, [("u", 10), ("s", b""), ("s", b"")]),
+    (1, [("u", 11), ("s", b"bye \xff"), ("s", b"")]),
+    (1, [("u", 2), ("s", b"too many \xff tries"), ("s", b"")]),
+]
 
-def build_kbd_script(method, rounds, final, flist, service_transport=False):
+
+def build_bye(ti, m):
+    """-> (payload, mutated?)"""
+    t, f = BYE_TEMPLATES[ti % len(BYE_TEMPLATES)]
+    p = mutate(t, f, m)
+    return p, p != bytes([t]) + enc(f)
+
+
+def build_kbd_script(method, rounds, final, flist, service_transport=False, bye=None):
     """A keyboard-interactive conversation as the puppet server plays it: SERVICE_ACCEPT; for the password fallback
     first the FAILURE whose method list makes the client fall back; one INFO_REQUEST per round (sent when the client's
     request / previous INFO_RESPONSE has arrived); then the final verdict. rounds = [(nprompts, mutations)]."""
@@ -368,7 +389,7 @@ def build_kbd_script(method, rounds, final, flist, service_transport=False):
     elif final == "partial":
         msgs.append((after, bytes([51]) + R.string(b"publickey") + R.boolean(True)))
     elif final == "disconnect":
-        msgs.append((after, peers.m_disconnect(2, b"too many \xff tries")))
+        msgs.append((after, build_bye(*bye)[0] if bye is not None else peers.m_disconnect(2, b"too many \xff tries")))
     elif final == "another-request":
         msgs.append((after, mutate(60, info_request_fields(1), [])))
     return msgs
@@ -463,6 +484,7 @@ def judge(ctx, case, clause, exc):
     b = classify(exc)
     if b is not None:
         tbs = "".join(traceback.format_exception(type(exc), exc, exc.__traceback__))[-1500:]
+        ctx.count("oracle-failed:" + clause)
         ctx.violation(clause, b, case, "%r\n%s" % (exc, tbs))
         return False
     return True
@@ -486,11 +508,11 @@ def wait_log(puppet, pred, timeout):
             pz.log_cv.wait(min(left, 0.01))
 
 
-def wait_sentinel_or_death(puppet, tested, seen, timeout=2.0):
-    """After the puppet sent a sentinel GLOBAL_REQUEST: 'reply' / 'dead' / None (hang)."""
+def wait_sentinel_or_death(puppet, tested, seen, timeout=2.0, types=(81, 82)):
+    """After the puppet sent a sentinel GLOBAL_REQUEST (or, types=(3,), a message of an unimplemented type): 'reply' / 'dead' / None (hang)."""
 
     def got(lg):
-        if any(e[1] in (81, 82) for e in lg[seen:]):
+        if any(e[1] in types for e in lg[seen:]):
             return "reply"
         if not tested.is_active():
             return "dead"
@@ -546,6 +568,33 @@ ANSWERED_CALLS = {
 for _n, _f in PENDING_CALLS.items():
     ANSWERED_CALLS[_n] = ((lambda t, ch, _f=_f: _f(ch)), 98, "chan")
 ANSWER_CATEGORIES = {c: sorted(n for n, v in ANSWERED_CALLS.items() if v[2] == c) for c in ("open", "chan", "global")}
+# the call that waits for a whole key exchange ("kex": not one of the reply family's answer categories)
+REKEY = "renegotiate_keys"
+ANSWERED_CALLS[REKEY] = (lambda t, ch: t.renegotiate_keys(), 20, "kex")
+# what may be kept waiting - SEVERAL at a time, on one transport - while the peer's messages arrive (families post / postc, either role)
+WAITERS = ["open_session", "open_session", "open_channel:direct-tcpip", "global_request", REKEY, REKEY] + sorted(PENDING_CALLS)
+
+
+class HoldPacketizer(peers.RecPacketizer):
+    """Puppet packetizer that can also HOLD a key exchange: with hold_kex set (raw mode), KEXINIT / kex / NEWKEYS messages from the
+    tested side are recorded and left unanswered like everything else, so that a renegotiate_keys() of the tested side stays pending
+    (and the tested side stays inside the exchange) while the script's messages - among them the kex messages of the grammar - arrive."""
+
+    hold_kex = False
+
+    def read_message(self):
+        ptype, m = peers.RecPacketizer.read_message(self)
+        if self.raw_mode and self.hold_kex and ptype in peers.KEX_TYPES:
+            with self.log_cv:
+                self.log.append((m.seqno, ptype, m.get_remainder()))
+                self.log_cv.notify_all()
+            return 2, m  # MSG_IGNORE
+        return ptype, m
+
+
+# liveness probe while the tested side is inside a (held) key exchange: there its answers to connection-layer requests are held back
+# until NEWKEYS, but a message type nobody implements is answered with UNIMPLEMENTED at once
+PROBE_UNIMPLEMENTED = bytes([192])
 
 
 def answer_templates(cid, oid):
@@ -561,86 +610,132 @@ def answer_templates(cid, oid):
     }
 
 
-def run_post(ctx, role, msgs, pending_open, record=True, pending=None):
-    """msgs: list of payload bytes (already mutated). pending (client role): name of an application call that is kept
-    waiting while the messages arrive - "open_session" (older cases: pending_open=True) or one of PENDING_CALLS on the
-    open channel. Such a call re-raises (and clears) what get_exception() returns: every value get_exception() hands out
-    is judged, whoever asked, and so is what the pending call itself raises (clause pending-call-raises) - be it because of
-    the messages or because the session has ended (the harness shuts it down at the end of the case)."""
-    if pending is None and pending_open:
-        pending = "open_session"
-    case = {"family": "post", "role": role, "msgs": msgs, "pending_open": pending_open, "pending": pending}
+def run_post(ctx, role, msgs, pending_open, record=True, pending=None, pendings=None):
+    """msgs: list of payload bytes (already mutated). pendings: names (ANSWERED_CALLS) of the application calls of the tested side -
+    either role, SEVERAL at a time - that are kept waiting on the one transport while the messages arrive (older cases: pending = one
+    name, or pending_open=True): channel opens, global requests, channel requests (the first on the open channel, every further one
+    on a channel of its own) and renegotiate_keys (these start last; the puppet then HOLDS the key exchange: the tested side stays
+    inside it, the call stays pending, a second one joins it).  Such a call re-raises (and clears) what get_exception() returns: every
+    value get_exception() hands out is judged, whoever asked, and so is what EVERY pending call itself raises (clause
+    pending-call-raises) - be it because of the messages or because the session has ended (the harness shuts it down at the end of
+    the case)."""
+    if pendings is None:
+        pendings = [pending] if pending else (["open_session"] if pending_open else [])
+    case = {"family": "post", "role": role, "msgs": msgs, "pending_open": pending_open, "pending": pending, "pendings": list(pendings)}
+    order = [n for n in pendings if n != REKEY] + [n for n in pendings if n == REKEY]
+    hold = REKEY in order
+    kw = {"packetizer_class": HoldPacketizer}
     if role == "client":
-        link, tc, ts, srv = peers.connected_pair(client_cls=peers.VTransport, server_cls=peers.Puppet)
+        link, tc, ts, srv = peers.connected_pair(client_cls=peers.VTransport, server_cls=peers.Puppet, server_kw=kw)
         tested, puppet = tc, ts
     else:
         srv = peers.RecordingServer({"check_auth_password": peers.AUTH_SUCCESSFUL})
-        link, tc, ts, srv = peers.connected_pair(client_cls=peers.Puppet, server_cls=peers.VTransport, server_obj=srv)
+        link, tc, ts, srv = peers.connected_pair(client_cls=peers.Puppet, server_cls=peers.VTransport, server_obj=srv, client_kw=kw)
         tested, puppet = ts, tc
     consumed = 0
-    th = None
-    res = {}
+    calls = []  # [name, thread, result dict, came back before the harness ended the session]
     classes = ["post:" + role]
-    early = False
+    ended_by_peer = False
+    keep = []  # the puppet's channel ends (a collected Channel closes itself)
+
+    def new_channel():
+        c = tc.open_session(timeout=10)
+        keep.append(c)
+        if role != "client":
+            c = ts.accept(10)
+            if c is None:
+                raise peers.core.HarnessError("C38 harness: the tested server never got the puppet's session channel")
+        return c
+
     try:
-        chan = tc.open_session(timeout=10)
+        if role == "client" or not order:
+            chan = tc.open_session(timeout=10)
+            keep.append(chan)
+        else:
+            chan = new_channel()
+        nreq = sum(1 for n in order if ANSWERED_CALLS[n][2] == "chan")
+        chans = [chan] + [new_channel() for _ in range(nreq - 1)]
         seen_exc = watch_get_exception(tested)
         puppet.raw()
-        if pending and role == "client":
-            fn, wanted, _cat = ANSWERED_CALLS[pending]
+        puppet.packetizer.hold_kex = hold
+        rekeys = 0
+        for name in order:
+            fn, wanted, cat = ANSWERED_CALLS[name]
+            ch = chans.pop(0) if cat == "chan" else chan
+            res = {}
 
-            def call():
-                return fn(tested, chan)
-
-            def pending_call():
+            def pending_call(fn=fn, ch=ch, res=res):
                 try:
-                    res["r"] = call()
+                    res["r"] = fn(tested, ch)
                 except BaseException as e:
                     res["e"] = e
 
+            start = len(puppet.log)
             th = threading.Thread(target=pending_call, daemon=True)
             th.start()
-            wait_log(puppet, lambda lg: any(e[1] == wanted for e in lg) or bool(res) or None, 5)
-            classes.append("pending-call:" + pending)
+            calls.append([name, th, res, False])
+            if name == REKEY and rekeys:
+                th.join(0.005)  # joins the exchange that is under way: sends nothing the puppet could wait for
+            else:
+                wait_log(puppet, lambda lg: any(e[1] == wanted for e in lg[start:]) or bool(res) or None, 5)
+            rekeys += name == REKEY
+            classes.append("pending-call:" + name)
+        probe, ptypes = (PROBE_UNIMPLEMENTED, (3,)) if hold else (peers.m_global_request(SENT, True), (81, 82))
+        last = None
         for p in msgs:
             seen = len(puppet.log)
             try:
                 puppet.send_raw_seq(p)
-                puppet.send_raw_seq(peers.m_global_request(SENT, True))
+                puppet.send_raw_seq(probe)
             except Exception:
                 break  # link already dead
-            r = wait_sentinel_or_death(puppet, tested, seen)
+            r = wait_sentinel_or_death(puppet, tested, seen, types=ptypes)
             if r is None:
                 ctx.inconc("post:no-reaction")
                 break
             consumed += 1
+            last = p
             if r == "dead":
                 break
         if not tested.is_active():
-            if th is not None:
-                th.join(5)  # the session ended: the pending call comes back with what get_exception() gave it
+            ended_by_peer = True
+            for c in calls:
+                c[1].join(5)  # the session ended: the pending calls come back, the first with what get_exception() gave it
             tested.get_exception()
-        early = th is not None and ("e" in res or "r" in res)
+        for c in calls:
+            c[3] = bool(c[2])
     finally:
         peers.shutdown(tested, puppet)
-        if th is not None:
-            th.join(5)
+        for c in calls:
+            c[1].join(5)
     ok = True
-    if th is not None:
+    raised = 0
+    for name, th, res, early in calls:
         if th.is_alive():
             ctx.inconc("post:pending-call-did-not-return")
         elif "r" in res:
-            classes.append("pending-call:%s:returned" % pending)
+            classes.append("pending-call:%s:returned" % name)
         else:
+            raised += 1
             how = "raised-what-get_exception-returned" if any(res["e"] is x for x in seen_exc) else "raised-own-exception"
-            classes.append("pending-call:%s:%s%s" % (pending, how, "" if early else ":when-the-harness-ended-the-session"))
+            classes.append("pending-call:%s:%s%s" % (name, how, "" if early else ":when-the-harness-ended-the-session"))
             classes.append("pending-call-raised:" + type(res["e"]).__name__)
+    if calls:
+        classes.append("waiters:%d" % len(calls))
+        classes.append("waiters:%d:raised:%d" % (len(calls), raised))
+        if hold:
+            classes.append("waiters:key-exchange-held:%d-in-renegotiate_keys" % rekeys)
+        if ended_by_peer:
+            classes.append("waiters:%d:session-ended-by-the-peer's-messages" % len(calls))
+            if last is not None and last[:1] == b"\x01":
+                classes += ["bye:while-waiting:" + c[0] for c in calls]
     if record:
-        ctx.case(case, consumed > 0, classes + ["type:%d" % p[0] for p in msgs[: max(consumed, 1)]])
+        ctx.case(case, consumed > 0, classes + ["type:%d" % p[0] for p in msgs[: max(consumed, 1)] if p])
     for e in list(seen_exc):
         ok = judge(ctx, case, "get_exception", e) and ok
-    if th is not None and "e" in res:
-        ok = judge(ctx, case, "pending-call-raises", res["e"]) and ok
+    for name, th, res, early in calls:
+        if "e" in res:
+            ok = judge(ctx, case, "pending-call-raises", res["e"]) and ok
     return ok
 
 
@@ -930,7 +1025,7 @@ def run_auths(ctx, policy, msgs, record=True):
         peers.shutdown(tc, ts)
 
 
-def run_pre(ctx, role, script, blocking, hostkeys=("ed25519", "ecdsa256", "ecdsa384", "rsa2048"), gex_pack=False, record=True):
+def run_pre(ctx, role, script, blocking, hostkeys=("ed25519", "ecdsa256", "ecdsa384", "rsa2048"), gex_pack=False, record=True, classes=()):
     """script: list of raw byte chunks the harness writes to the tested side (banner lines and
     plaintext packets already framed). Afterwards the stream ends (EOF)."""
     import paramiko
@@ -976,7 +1071,7 @@ def run_pre(ctx, role, script, blocking, hostkeys=("ed25519", "ecdsa256", "ecdsa
         if t.is_alive():
             ctx.inconc("pre:thread-did-not-end")
         if record:
-            ctx.case(case, True, ["pre:" + role, "blocking" if blocking else "event"])
+            ctx.case(case, True, ["pre:" + role, "blocking" if blocking else "event"] + list(classes))
         ok = True
         if exc is not None:
             ok = judge(ctx, case, "start-raises", exc) and ok
@@ -1069,6 +1164,18 @@ int_mutation = st.tuples(st.just("badint"), st.integers(0, 40), st.one_of(st.sam
 int_muts = st.lists(st.one_of(int_mutation, int_mutation.map(lambda m: m), mutation), min_size=1, max_size=2)
 
 
+# "bye": the peer's DISCONNECT - (position: how many of the script's messages precede it, BYE_TEMPLATES index, text-preferring mutations)
+bye_muts = st.lists(st.one_of(text_mutation.map(lambda m: m), text_mutation.map(lambda m: m), text_mutation.map(lambda m: m), mutation.map(lambda m: m)), min_size=0, max_size=2)
+bye = st.tuples(st.integers(0, 7), st.integers(0, len(BYE_TEMPLATES) - 1), bye_muts)
+# several application calls waiting on one transport
+waiters = st.lists(st.sampled_from(WAITERS), min_size=0, max_size=3)
+
+
+def _none(n):
+    # n distinct "no value" strategies (one_of de-duplicates identical objects)
+    return [st.none().map(lambda v: v) for _ in range(n)]
+
+
 def _msgs_from(templates, max_msgs=3):
     return st.lists(st.tuples(st.integers(0, len(templates) - 1), muts), min_size=1, max_size=max_msgs)
 
@@ -1104,30 +1211,36 @@ def pre_case():
         st.lists(muts, min_size=2, max_size=2),  # mutations of the method-specific messages
         st.booleans(),  # blocking API
         st.sampled_from([None, b"kex-strict-s-v00@openssh.com", b"kex-strict-c-v00@openssh.com", b"ext-info-c", b"ext-info-s"]),
-        st.sampled_from(["none", "newkeys", "garbage", "extra", "disconnect", "disconnect-first"]),
+        st.sampled_from(["none", "newkeys", "garbage", "extra"]),
+        # the peer takes leave with a DISCONNECT from the grammar (mutated) after 0..n of the script's packets, while
+        # start_client / start_server waits (older versions: two fixed DISCONNECTs, first or last)
+        st.one_of(st.none(), bye),
     )
 
 
 def build_pre(c):
-    role, bi, kex, hk, kmuts, mmuts, blocking, strict, tail = c
+    role, bi, kex, hk, kmuts, mmuts, blocking, strict, tail, leave = c
     script = [BANNERS[bi]]
-    if tail == "disconnect-first":
-        script.append(frame(peers.m_disconnect(2, b"go away")))
     script.append(frame(mutate(20, kexinit_fields(kex, hk, strict=strict), kmuts)))
     parts = client_kex_reply_fields(kex, hk) if role == "client" else server_kex_init_fields(kex)
     for i, (t, f) in enumerate(parts):
         script.append(frame(mutate(t, f, mmuts[i % len(mmuts)])))
+    classes = []
+    if leave is not None:
+        pos, ti, bm = leave
+        k = pos % len(script)  # number of packets that precede it
+        p, mutated = build_bye(ti, bm)
+        script.insert(1 + k, frame(p))
+        classes = ["bye:kex:%s:after-%d-packets" % ("start_client" if role == "client" else "start_server", k)] + ["bye:mutated"] * mutated
     if tail == "newkeys":
         script.append(frame(bytes([21])))
         script.append(b"\x00\x00\x00\x1c" + b"\x55" * 64)
-    elif tail == "disconnect":
-        script.append(frame(peers.m_disconnect(11, b"bye \xff")))
     elif tail == "garbage":
         script.append(b"\xff" * 40)
     elif tail == "extra":
         script.append(frame(bytes([21, 1, 2, 3])))
         script.append(frame(bytes([7]) + R.u32(1) + R.string(b"a") + R.string(b"\xff")))
-    return role, script, blocking, (b"group-exchange" in kex)
+    return role, script, blocking, (b"group-exchange" in kex), classes
 
 
 # ----------------------------------------------------------------------------- run / replay
@@ -1146,30 +1259,30 @@ def run(ctx):
     auths_t = auths_templates()
 
     def body_pre(c):
-        role, script, blocking, gex = build_pre(c)
-        run_pre(ctx, role, script, blocking, gex_pack=gex)
+        role, script, blocking, gex, classes = build_pre(c)
+        run_pre(ctx, role, script, blocking, gex_pack=gex, classes=classes)
 
     def body_post(c):
-        role, ms, pending = c
+        role, ms, pend, leave = c
         T = post_c if role == "client" else post_s
         msgs = [mutate(T[i][0], T[i][1], m) for i, m in ms]
-        if role != "client":
-            pending = None
-        run_post(ctx, role, msgs, pending == "open_session", pending=pending)
+        if leave is not None:
+            msgs.append(build_bye(leave[1], leave[2])[0])  # always last: nothing after a DISCONNECT is read
+        run_post(ctx, role, msgs, False, pendings=pend)
 
     def body_postc(c):
-        role, ms, pending = c
+        role, ms, pend, leave = c
         msgs = [mutate(chan_t[i][0], chan_t[i][1], m) for i, m in ms]
-        if role != "client":
-            pending = None
-        run_post(ctx, role, msgs, False, pending=pending)
+        if leave is not None:
+            msgs.append(build_bye(leave[1], leave[2])[0])
+        run_post(ctx, role, msgs, False, pendings=pend)
 
     def body_reply(c):
         role, rounds = c
         run_reply(ctx, role, [(ANSWER_CATEGORIES[cat][which % len(ANSWER_CATEGORIES[cat])], [first] + more) for (cat, which), first, more in rounds])
 
     def body_authc(c):
-        method, ms, accept_first, early, service_tr = c
+        method, ms, accept_first, early, service_tr, leave = c
         msgs = []
         if accept_first:
             msgs.append((5, bytes([6]) + R.string(b"ssh-userauth")))
@@ -1177,15 +1290,24 @@ def run(ctx):
             t, f = authc_t[i]
             # without a SERVICE_ACCEPT the client never sends its USERAUTH_REQUEST: deliver while it waits (wrong stage)
             msgs.append((50 if accept_first else 5, mutate(t, f, m)))
-        run_authc(ctx, method, msgs, early=[ext_info_payload(*e) for e in early], service_transport=service_tr)
+        cls = []
+        if leave is not None:
+            # the server takes leave while the auth call waits: after k of the script's messages
+            k = leave[0] % (len(msgs) + 1)
+            p, mutated = build_bye(leave[1], leave[2])
+            msgs.insert(k, (50 if accept_first and k else 5, p))
+            cls = ["bye:auth:%s:after-%d-messages" % (method, k)] + ["bye:mutated"] * mutated
+        run_authc(ctx, method, msgs, early=[ext_info_payload(*e) for e in early], service_transport=service_tr, classes=cls)
 
     def body_authk(c):
-        method, rounds, final, flist, service_tr = c
+        method, rounds, final, flist, service_tr, leave = c
         nmut = sum(1 for _, m in rounds if m)
         cls = ["authc:kbd-exchange:rounds=%d" % len(rounds), "authc:kbd-exchange:mutated-rounds=%d" % nmut, "authc:kbd-exchange:final=" + final]
         if method == "password-fallback":
             cls.append("authc:password-fallback:failure-list=" + KBD_FAILURE_LISTS[flist % len(KBD_FAILURE_LISTS)].decode())
-        run_authc(ctx, method, build_kbd_script(method, rounds, final, flist, service_tr), service_transport=service_tr, classes=cls)
+        if final == "disconnect":
+            cls += ["bye:auth:kbd-exchange:%s" % method] + ["bye:mutated"] * build_bye(leave[1], leave[2])[1]
+        run_authc(ctx, method, build_kbd_script(method, rounds, final, flist, service_tr, bye=leave[1:]), service_transport=service_tr, classes=cls)
 
     def body_auths(c):
         policy, ms, svc_first = c
@@ -1203,13 +1325,15 @@ def run(ctx):
     bodies = {"pre": body_pre, "post": body_post, "postc": body_postc, "reply": body_reply, "authc": body_authc, "authk": body_authk, "auths": body_auths, "wire": body_wire}
     strategies = {
         "pre": pre_case(),
-        "post": st.tuples(st.sampled_from(["client", "server"]), _msgs_from(post_c, 3), st.sampled_from([None, None, "open_session"] + sorted(PENDING_CALLS))),
+        # 0-3 application calls of the tested side (either role) wait meanwhile; one script in three ends with the peer's DISCONNECT
+        "post": st.tuples(st.sampled_from(["client", "server"]), _msgs_from(post_c, 3), waiters, st.one_of(*_none(2), bye)),
         # channel-centred: only messages for the open channel, mutations that prefer the text fields, and (client) an application
         # call blocked on that channel most of the time
         "postc": st.tuples(
             st.sampled_from(["client", "server"]),
             st.lists(st.tuples(st.integers(0, len(chan_t) - 1), text_muts), min_size=1, max_size=3),
-            st.sampled_from([None] + sorted(PENDING_CALLS) * 2),
+            waiters,
+            st.one_of(*_none(2), bye),
         ),
         # answer-centred: 1-3 rounds on one session; per round an application call of either side waits (channel open of every kind,
         # channel request, global request) and the peer's answer to exactly that call is built from the grammar with
@@ -1236,6 +1360,7 @@ def run(ctx):
                 st.lists(st.tuples(st.sampled_from(EXT_NAMES), st.sampled_from([b"\xff", b"\xff\xfe\xfd", b"rsa-sha2-512,\xc3\x28", b"\xed\xa0\x80"]), st.integers(0, 1)), min_size=1, max_size=1),
             ),
             st.booleans(),
+            st.one_of(*_none(2), bye),
         ),
         # whole keyboard-interactive conversations (1-3 rounds, each INFO_REQUEST with 0-3 prompts and 0-2 mutations that prefer the
         # text fields), reached through every API that ends up in one: auth_interactive, auth_interactive_dumb, auth_password's fallback
@@ -1245,6 +1370,7 @@ def run(ctx):
             st.sampled_from(KBD_FINALS),
             st.integers(0, len(KBD_FAILURE_LISTS) - 1),
             st.booleans(),
+            bye,  # final "disconnect": the DISCONNECT comes from the grammar too
         ),
         "auths": st.tuples(st.sampled_from([0, 1, 2]), _msgs_from(auths_t, 3), st.booleans()),
         "wire": st.tuples(
@@ -1268,7 +1394,7 @@ def run(ctx):
                     script.append(frame(peers.m_disconnect(11, b"bye")))
                     run_pre(ctx, role, script, blocking)
     # families are interleaved (one draw picks the family) so that a budget hit thins all of them evenly
-    weights = {"pre": 6, "post": 4, "postc": 4, "authc": 3, "authk": 3, "auths": 6, "wire": 2}
+    weights = {"pre": 6, "post": 3, "postc": 3, "authc": 3, "authk": 2, "auths": 5, "wire": 2}
     fams = [f for f in os.environ.get("C38_FAMILIES", "pre,post,postc,authc,authk,auths,wire,reply").split(",") if f in bodies]  # diagnostics only
     tagged = []
     for f in fams:
@@ -1295,9 +1421,9 @@ def run(ctx):
     # the answer-centred family runs on its own (own seed stream, first: a budget hit later on cannot starve it); its cases are paid
     # for by the interleaved families (760 -> 680 quick cases)
     if "reply" in fams:
-        ctx.explore(strategies["reply"].map(lambda c: ("reply", c)), timed, ctx.scale(90, 1100), shrink=False, seed_offset=2)
+        ctx.explore(strategies["reply"].map(lambda c: ("reply", c)), timed, ctx.scale(80, 1100), shrink=False, seed_offset=2)
     if tagged:
-        ctx.explore(st.one_of(*tagged), timed, ctx.scale(680, 8100), shrink=False, seed_offset=1)
+        ctx.explore(st.one_of(*tagged), timed, ctx.scale(600, 8100), shrink=False, seed_offset=1)
     ctx.note("family_cases_and_seconds", {k: [v[0], round(v[1], 1)] for k, v in sorted(spent.items())})
 
 
@@ -1306,7 +1432,7 @@ def replay(ctx, case):
     if fam == "pre":
         run_pre(ctx, case["role"], case["script"], case["blocking"], gex_pack=case.get("gex_pack", False))
     elif fam == "post":
-        run_post(ctx, case["role"], case["msgs"], case["pending_open"], pending=case.get("pending"))
+        run_post(ctx, case["role"], case["msgs"], case["pending_open"], pending=case.get("pending"), pendings=case.get("pendings"))
     elif fam == "reply":
         run_reply(ctx, case["role"], case["rounds"])
     elif fam == "authc":
